@@ -516,3 +516,105 @@ def _static(spec, model):
                                 'labels_before': {k: a[0].get(k) for k in ('pressure_mode', 'pressure_unit', 'loading_basis', 'loading_unit')},
                                 'labels_after': {k: b[0].get(k) for k in ('pressure_mode', 'pressure_unit', 'loading_basis', 'loading_unit')}})
     return {'confirmed': bool(changed), 'observed': changed[:3] or spec.get('writes'), 'expected': 'arguments observably unchanged'}
+
+
+def argument_container_cases():
+    """the dictionaries and lists a caller hands to a fit / an IAST call next to the isotherms (starting values, bounds, optimiser
+    options, lists of models, fractions) outlive the call: they are unchanged afterwards, and the same objects reused for a second
+    isotherm give the outcome that fresh ones give"""
+    import copy
+    import warnings
+    import pygaps
+    import pygaps.iast as pgi
+    import pygaps.modelling as pgm
+    pygaps.logger.disabled = True
+    meta = dict(material='pgv_c04', adsorbate='nitrogen', temperature=77.355, pressure_mode='absolute', pressure_unit='bar', loading_basis='molar',
+                loading_unit='mmol', material_basis='mass', material_unit='g', temperature_unit='K')
+    pa = numpy.linspace(0.05, 2.0, 15)
+    iso_a = pygaps.PointIsotherm(pressure=pa, loading=10.0 * 1.0 * pa / (1 + 1.0 * pa), **meta)
+    pb = numpy.linspace(0.05, 4.0, 18)
+    iso_b = pygaps.PointIsotherm(pressure=pb, loading=2.0 * 0.5 * pb / (1 + 0.5 * pb), **meta)
+
+    def outcome(f):
+        with warnings.catch_warnings():
+            warnings.simplefilter('ignore')
+            try:
+                m = f()
+                return ('return', [float(m.model.params[k]) for k in sorted(m.model.params)] if hasattr(m, 'model') else numpy.asarray(m, dtype=float).ravel().tolist())
+            except Exception as exc:
+                return ('raise', type(exc).__name__)
+    calls = {
+        'model_iso|partial_param_guess+bounds': ({'param_guess': {'K': 1.0}, 'param_bounds': {'n_m': (0.0, 5.0)}},
+                                                 lambda iso, kw: pgm.model_iso(iso, model='Langmuir', **kw)),
+        'model_iso|full_param_guess': ({'param_guess': {'K': 1.0, 'n_m': 3.0}}, lambda iso, kw: pgm.model_iso(iso, model='Langmuir', **kw)),
+        'model_iso|partial_bounds+optimization_params': ({'param_bounds': {'K': [0.0, 20.0]}, 'optimization_params': {'max_nfev': 2000}},
+                                                         lambda iso, kw: pgm.model_iso(iso, model='Langmuir', **kw)),
+        'ModelIsotherm.from_pointisotherm|list_of_models': ({'model': ['Henry', 'Langmuir']}, lambda iso, kw: pygaps.ModelIsotherm.from_pointisotherm(iso, **kw)),
+        'ModelIsotherm|partial_param_guess': ({'param_guess': {'n_m': 4.0}}, lambda iso, kw: pygaps.ModelIsotherm(pressure=iso.pressure(), loading=iso.loading(), model='Langmuir',
+                                                                                                                   **kw, **meta)),
+    }
+    for name, (kwargs, call) in calls.items():
+        probs = []
+        shared = copy.deepcopy(kwargs)
+        outcome(lambda: call(iso_a, shared))
+        if repr(shared) != repr(kwargs):
+            probs.append(f"the call changed what it was given: {kwargs} -> {shared}"[:220])
+        second = outcome(lambda: call(iso_b, shared))
+        fresh = outcome(lambda: call(iso_b, copy.deepcopy(kwargs)))
+        if not _eq(second, fresh):
+            probs.append(f"on a second isotherm the reused arguments give {second}, fresh ones {fresh}"[:220])
+        yield {'name': f"argument_containers|{name}", 'ok': not probs, 'detail': '; '.join(probs)}
+    # IAST: the lists of partial pressures / fractions
+    ma = pygaps.ModelIsotherm(model=pgm.get_isotherm_model('Langmuir', parameters={'K': 2.0, 'n_m': 5.0}, pressure_range=(0.0, 10.0), loading_range=(0.0, 5.0), rmse=0.0), **meta)
+    mb = pygaps.ModelIsotherm(model=pgm.get_isotherm_model('Langmuir', parameters={'K': 0.5, 'n_m': 3.0}, pressure_range=(0.0, 10.0), loading_range=(0.0, 3.0), rmse=0.0), **meta)
+    for name, arg, call in (('iast_point|partial_pressures', [0.4, 0.6], lambda a: pgi.iast_point([ma, mb], a)),
+                            ('iast_point_fraction|fractions', [0.3, 0.7], lambda a: pgi.iast_point_fraction([ma, mb], a, 1.0)),
+                            ('reverse_iast|fractions', [0.25, 0.75], lambda a: pgi.reverse_iast([ma, mb], a, 1.0)[0])):
+        probs = []
+        shared = list(arg)
+        first = outcome(lambda: call(shared))
+        if shared != arg:
+            probs.append(f"the call changed the list it was given: {arg} -> {shared}")
+        again = outcome(lambda: call(shared))
+        if not _eq(first, again):
+            probs.append(f"the same list again gives {again}, first {first}"[:200])
+        yield {'name': f"argument_containers|{name}", 'ok': not probs, 'detail': '; '.join(probs)}
+
+
+@replayer('c04.arguments')
+def _arguments(spec, model):
+    for r in argument_container_cases():
+        if r['name'] == spec['name']:
+            return {'confirmed': not r['ok'], 'observed': r['detail'], 'expected': 'arguments unchanged; reused arguments behave as fresh ones'}
+    return {'confirmed': False, 'error': 'case not found'}
+
+
+def fill_rule_history_cases():
+    """an interpolated query with a fill rule in any documented form (number, pair, array, pair of arrays, 'extrapolate') gives the
+    same outcome on a freshly built isotherm and after queries with every other fill rule"""
+    import pygaps
+    pygaps.logger.disabled = True
+    meta = dict(material='pgv_c04', adsorbate='nitrogen', temperature=77.355, pressure_mode='absolute', pressure_unit='bar', loading_basis='molar',
+                loading_unit='mmol', material_basis='mass', material_unit='g', temperature_unit='K')
+    mk = lambda: pygaps.PointIsotherm(pressure=[1.0, 2.0, 3.0, 4.0], loading=[1.0, 2.5, 3.5, 4.0], **meta)
+    fills = {'none': None, 'number': 4.0, 'zero': 0, 'pair': (0.0, 4.0), 'array': numpy.array([4.0]), 'pair_of_arrays': (numpy.array(0.0), numpy.array(4.0)),
+             'list': [4.0], 'extrapolate': 'extrapolate'}
+    for meth, q in (('loading_at', 5.0), ('pressure_at', 4.5)):
+        for later, lf in fills.items():
+            fresh = _run(lambda i: float(numpy.asarray(getattr(i, meth)(q, interp_fill=lf), dtype=float).ravel()[0]), mk())
+            probs = []
+            for earlier, ef in fills.items():
+                iso = mk()
+                _run(lambda i: getattr(i, meth)(q, interp_fill=ef), iso)
+                after = _run(lambda i: float(numpy.asarray(getattr(i, meth)(q, interp_fill=lf), dtype=float).ravel()[0]), iso)
+                if not _eq(fresh, after):
+                    probs.append(f"after a query with fill rule '{earlier}': {after}, on a fresh isotherm: {fresh}")
+            yield {'name': f"fill_rule_history|{meth}|{later}", 'ok': not probs, 'detail': '; '.join(probs[:2])[:300]}
+
+
+@replayer('c04.fill_history')
+def _fill_history(spec, model):
+    for r in fill_rule_history_cases():
+        if r['name'] == spec['name']:
+            return {'confirmed': not r['ok'], 'observed': r['detail'], 'expected': 'the outcome on a freshly built isotherm'}
+    return {'confirmed': False, 'error': 'case not found'}
